@@ -688,3 +688,115 @@ func reachRegion(fn *ssa.Function, from ssa.Instruction, target func(ssa.Instruc
 	}
 	return nil, false
 }
+
+// ---------- generic path exploration with a client-defined abstract state ----------
+
+// Explorer walks every path of Root's region (helpers expanded context-sensitively, infeasible branches on helper
+// results pruned, exactly like Reach) while a client threads one abstract state - a string - along each path.
+// It is the skeleton of the small abstract interpreters of the rules (typestate extraction, enum facts).
+type Explorer struct {
+	Root *ssa.Function
+	// Step is offered every instruction on a path in execution order, except the return instructions of expanded
+	// helpers. expanded tells whether in is a call the exploration is about to enter. It returns the state after the
+	// instruction and false to end the path there.
+	Step func(in ssa.Instruction, state string, expanded bool) (string, bool)
+	// Edge is offered every control-flow edge a path is about to take; it returns the state after the edge and false
+	// when the edge is infeasible in that state. nil: all edges feasible, state unchanged.
+	Edge func(e Edge, state string) (string, bool)
+}
+
+// Run explores from Root's entry with the given initial state.
+func (x *Explorer) Run(init string) {
+	fn := x.Root
+	if len(fn.Blocks) == 0 {
+		return
+	}
+	rg := RegionOf(fn)
+	var items []ritem
+	seen := map[string]bool{}
+	push := func(it ritem) {
+		k := it.key()
+		if seen[k] {
+			return
+		}
+		seen[k] = true
+		items = append(items, it)
+	}
+	push(ritem{b: fn.Blocks[0], start: 0, k: init, parent: -1})
+	active := func(st []rframe, cur, g *ssa.Function) bool {
+		if g == cur {
+			return true
+		}
+		for _, f := range st {
+			if f.blk.Parent() == g {
+				return true
+			}
+		}
+		return false
+	}
+	for qi := 0; qi < len(items) && len(items) < 200000; qi++ {
+		it := items[qi]
+		cur := it.b.Parent()
+		state := it.k
+		stopped := false
+		for i := it.start; i < len(it.b.Instrs) && !stopped; i++ {
+			in := it.b.Instrs[i]
+			if ret, isRet := in.(*ssa.Return); isRet && cur != rg.Root {
+				if n := len(it.stack); n > 0 {
+					fr := it.stack[n-1]
+					nf := it.facts
+					nf[1] = nf[0]
+					nf[0] = rfact{fr.call, ret}
+					push(ritem{stack: append([]rframe{}, it.stack[:n-1]...), b: fr.blk, start: fr.idx + 1, facts: nf, k: state, parent: qi})
+				}
+				stopped = true
+				break
+			}
+			var enter *ssa.Function
+			if ci, ok := in.(ssa.CallInstruction); ok {
+				if g := HelperCallee(cur, ci); g != nil && rg.in[g] && g != rg.Root && !active(it.stack, cur, g) && len(it.stack) < regionDepth {
+					enter = g
+				}
+			}
+			ns, cont := x.Step(in, state, enter != nil)
+			state = ns
+			if !cont {
+				stopped = true
+				break
+			}
+			if enter != nil {
+				nst := append(append([]rframe{}, it.stack...), rframe{in.(ssa.CallInstruction), it.b, i})
+				push(ritem{stack: nst, b: enter.Blocks[0], start: 0, facts: it.facts, k: state, parent: qi})
+				stopped = true
+				break
+			}
+		}
+		if stopped {
+			continue
+		}
+		feasible := [2]bool{true, true}
+		if ifi := BlockIf(it.b); ifi != nil && (it.facts[0].call != nil || it.facts[1].call != nil) {
+			if v, known := evalCond(ifi.Cond, ifi, it.facts); known {
+				if v {
+					feasible[1] = false
+				} else {
+					feasible[0] = false
+				}
+			}
+		}
+		for si, s := range it.b.Succs {
+			if si < 2 && !feasible[si] {
+				continue
+			}
+			ns := state
+			if x.Edge != nil {
+				var ok bool
+				ns, ok = x.Edge(Edge{it.b, si}, state)
+				if !ok {
+					continue
+				}
+			}
+			push(ritem{stack: it.stack, b: s, start: 0, facts: it.facts, k: ns, parent: qi})
+		}
+	}
+}
